@@ -14,7 +14,11 @@ rule = ("scripts = 'a handles n', a set-up (shared / immutable / no-copy / typed
         "resolved at run time) on either of 2 handles from each of 10 set-ups, all pairs of a reduced pool from 5 set-ups, "
         "all triples of a small pool from 2 set-ups (thorough: all pairs of the full pool); stream 2 = slice windows "
         "(every window position x block counts/sizes, shared and private); stream 3 = random histories of length 30 "
-        "over 3 handles with all flag combinations. Non-trivial = a mutating op succeeded through a handle whose "
+        "over 3 handles with all flag combinations; second part (harness/drvxx_array.cpp): the C++ layer — mpt::array "
+        "set/insert/append/slice assignment/copy/assignment and typed_array<T>/unique_array<T> insert/set/resize/reserve/"
+        "detach/trim/skip for uint8_t and a 12-byte POD, 6 set-ups (shared, three holders, private, full, large) x every "
+        "op (lengths below/equal/above the current length and the capacity, positions front/middle/end/past-the-end/"
+        "negative), pairs of ops, random histories. Non-trivial = a mutating op succeeded through a handle whose "
         "buffer was shared (refcount >= 2) or immutable at that moment, counted per distinct script")
 assumptions = [
     "malloc never fails in the harness runs and all sizes stay far below SIZE_MAX (no overflow branches)",
@@ -27,13 +31,15 @@ assumptions = [
     "mpt_slice_write with element size 0 is not driven",
 ]
 trusted = ["hand-written model MptModel/Impl/Heap.lean tied to mptcore/array/*.c by harness/drv_array.c",
+           "hand-written model MptModel/Impl/HeapXX.lean tied to mpt++/array.cpp and the array.h templates by harness/drvxx_array.cpp "
+           "(mpt++/array.cpp is compiled into the driver with UBSan's vptr check off: the buffers are C objects with a hand-made vtable)",
            "harness reads the private refcount of buffer_alloc.c through its layout (internals section only)"]
 
 MUTATING = ("append", "insert", "set", "slice", "reserve", "cut", "bset", "printf", "swrite", "detach")
 
 
 def corpus(chk):
-    return gen.corpus(id)
+    return [(n, s) for n, s in gen.corpus(id) if s and s[0].startswith("a ")]
 
 
 SETUPS = {
@@ -230,6 +236,172 @@ def scripts(tier, seed, scale=1):
     out += slice_scripts(tier)
     out += random_scripts(tier, seed, scale)
     return out
+
+
+class _XX:
+    """second part: the C++ array layer (mpt++/array.cpp, array.h templates) through harness/drvxx_array.cpp"""
+    id = "C04"
+    area = "array"
+    driver = "drvxx_array"
+    cxx = True
+    fixed_lines = 1
+    # the buffers are C objects with a hand-made vtable: UBSan's C++ vptr check cannot accept them
+    link_extra = ["-fno-sanitize=vptr"]
+
+    @staticmethod
+    def corpus(chk):
+        return [(n, s) for n, s in gen.corpus(id) if s and s[0].startswith("x ")]
+
+    ARR_SETUPS = {
+        "empty": [],
+        "shared": ["x set h0 616263646566", "x clone h1 h0"],
+        "shared3": ["x set h0 616263646566", "x clone h1 h0", "x copy h2 h1"],
+        "private": ["x set h0 616263646566", "x set h1 7172"],
+        "full-shared": ["x set h0 fill:64:30", "x copy h1 h0"],
+        "big-shared": ["x set h0 fill:100:30", "x clone h1 h0"],
+    }
+    TYP_SETUPS = {
+        "empty": [],
+        "shared": ["x resize h0 3", "x set h0 1 51", "x clone h1 h0"],
+        "shared3": ["x insert h0 0 41", "x insert h0 1 42", "x clone h1 h0", "x copy h2 h0"],
+        "private": ["x resize h0 3", "x resize h1 2", "x set h1 0 61"],
+        "big-shared": ["x resize h0 100", "x set h0 99 51", "x clone h1 h0"],
+        "full-shared": ["x resize h0 5", "x reserve h0 5", "x copy h1 h0"],
+    }
+
+    @staticmethod
+    def arr_ops(h, o, level):
+        ops = []
+        lens = [0, 1, 3, 5, 6, 7, 64, 65, 100, 200] if level else [0, 2, 6, 7, 70]
+        for n in lens:
+            ops.append("x set %s %s" % (h, "fill:%d:41" % n if n else "-"))
+            if level:
+                ops.append("x set %s zero:%d" % (h, n))
+            ops.append("x append %s %s" % (h, "fill:%d:51" % n if n else "-"))
+        for off in ([0, 1, 5, 6, 7, 60, 64, 200] if level else [0, 3, 6, 70]):
+            for n in ([0, 1, 2, 64] if level else [2]):
+                ops.append("x insert %s %d %s" % (h, off, "fill:%d:71" % n if n else "-"))
+            if level:
+                ops.append("x insert %s %d zero:3" % (h, off))
+        for off in ([0, 1, 3, 6, 7] if level else [0, 2]):
+            for n in ([0, 1, 3, 6] if level else [2]):
+                ops.append("x setslice %s %s %d %d" % (h, o, off, n))
+                if level:
+                    ops.append("x setslice %s %s %d %d" % (h, h, off, n))
+        ops += ["x clone %s %s" % (h, o), "x copy %s %s" % (h, o), "x drop %s" % h]
+        return ops
+
+    @staticmethod
+    def typ_ops(h, o, level):
+        ops = []
+        for p in ([0, 1, 2, 3, 4, 9, 100, -1, -3, -4, -200] if level else [0, 2, 3, 5, -1]):
+            ops.append("x insert %s %d 41" % (h, p))
+            ops.append("x set %s %d 47" % (h, p))
+        for n in ([0, 1, 2, 3, 4, 5, 6, 64, 65, 100, 200] if level else [0, 2, 3, 7, 100]):
+            ops.append("x resize %s %d" % (h, n))
+            ops.append("x reserve %s %d" % (h, n))
+        for n in ([0, 1, 3, 4, 100] if level else [0, 1, 4]):
+            ops.append("x trim %s %d" % (h, n))
+            ops.append("x skip %s %d" % (h, n))
+        ops += ["x detach %s" % h, "x clone %s %s" % (h, o), "x copy %s %s" % (h, o), "x drop %s" % h]
+        return ops
+
+    @staticmethod
+    def gen(kinds, tier, seed, scale, prop_id, elem):
+        out = []
+        X = _XX
+        for kind in kinds:
+            arr = kind == "arr"
+            setups = X.ARR_SETUPS if arr else X.TYP_SETUPS
+            mk = X.arr_ops if arr else X.typ_ops
+            full = mk("h0", "h1", 1) + mk("h1", "h0", 1)
+            small = mk("h0", "h1", 0) + mk("h1", "h0", 0)
+            if elem:
+                full = [o for o in full if " set " not in o]
+                small = [o for o in small if " set " not in o]
+            def wrap(setup, ops):
+                su = [x for x in setup if not (elem and " set " in x)]
+                return ["x handles 3 " + kind] + su + list(ops) + ["x end"]
+            for sn, setup in setups.items():
+                for a in full:
+                    out.append(("xx1:%s:%s:%s" % (kind, sn, a), wrap(setup, [a])))
+            if tier == "quick" and kind in ("t12", "u12"):
+                continue   # pairs for the 12-byte POD only in the thorough tier (singles and random histories stay)
+            for sn in (("shared", "big-shared") if tier == "quick" else tuple(setups)):
+                first = small if tier == "quick" else full
+                for a in first:
+                    for b in small:
+                        out.append(("xx2:%s:%s:%s;%s" % (kind, sn, a, b), wrap(setups[sn], [a, b])))
+        r = gen.rng(prop_id, tier, seed, "xx-random")
+        for k in range((200 if tier == "quick" else 2500) * scale):
+            kind = r.choice(kinds)
+            arr = kind == "arr"
+            lines = ["x handles 3 " + kind]
+            hs = ["h0", "h1", "h2"]
+            for _ in range(25):
+                h = r.choice(hs)
+                o = r.choice([x for x in hs if x != h])
+                if arr:
+                    op = r.choice(["set", "set", "append", "insert", "setslice", "clone", "clone", "copy", "drop"])
+                    n = r.choice([0, 1, 2, 5, 8, 60, 64, 65, 130])
+                    d = r.choice(["fill:%d:41" % n if n else "-", "zero:%d" % n])
+                    if op in ("set", "append"):
+                        lines.append("x %s %s %s" % (op, h, d))
+                    elif op == "insert":
+                        lines.append("x insert %s %d %s" % (h, r.choice([0, 1, 2, 5, 8, 63, 64, 70, 150]), d))
+                    elif op == "setslice":
+                        lines.append("x setslice %s %s %d %d" % (h, r.choice(hs), r.choice([0, 1, 2, 5, 60]), r.choice([0, 1, 2, 5, 64])))
+                    elif op == "drop":
+                        lines.append("x drop %s" % h)
+                    else:
+                        lines.append("x %s %s %s" % (op, h, o))
+                else:
+                    op = r.choice(["insert", "insert", "set", "resize", "resize", "reserve", "detach", "trim", "skip",
+                                   "clone", "clone", "copy", "drop"])
+                    if elem and op == "set":
+                        op = "resize"
+                    if op in ("insert", "set"):
+                        lines.append("x %s %s %d %02x" % (op, h, r.choice([0, 0, 1, 2, 3, 5, 8, 20, -1, -2, -9]), r.randrange(1, 200)))
+                    elif op in ("resize", "reserve"):
+                        lines.append("x %s %s %d" % (op, h, r.choice([0, 1, 2, 3, 5, 6, 7, 16, 17, 64, 65, 100])))
+                    elif op in ("trim", "skip"):
+                        lines.append("x %s %s %d" % (op, h, r.choice([0, 1, 2, 3, 10])))
+                    elif op in ("detach", "drop"):
+                        lines.append("x %s %s" % (op, h))
+                    else:
+                        lines.append("x %s %s %s" % (op, h, o))
+            lines.append("x end")
+            out.append(("xxr:%d" % k, lines))
+        return out
+
+    @staticmethod
+    def scripts(tier, seed, scale=1):
+        return _XX.gen(["arr", "t1", "t12", "u1", "u12"], tier, seed, scale, id, False)
+
+    @staticmethod
+    def nontrivial(script, c_lines):
+        return _xx_nontrivial(script, c_lines)
+
+
+XMUT = ("set", "insert", "append", "setslice", "resize", "reserve", "detach", "trim", "skip")
+
+
+def _xx_nontrivial(script, c_lines):
+    for i in range(1, min(len(script), len(c_lines))):
+        w = script[i].split()
+        if len(w) < 3 or w[1] not in XMUT or " ok " not in c_lines[i][:40]:
+            continue
+        st = _state(c_lines[i - 1])
+        if not st:
+            continue
+        hs, bufs = st
+        b = hs.get(w[2])
+        if b in bufs and bufs[b][0] >= 2:
+            return True
+    return False
+
+
+extra_parts = [_XX]
 
 
 _I = re.compile(r"\| I ret=\S+ hs=(\S+) bufs=(\S+)")
